@@ -699,4 +699,317 @@ Section CGProofs.
       apply Forall_cons_iff in Ho. exact (proj1 Ho). }
     destruct (step_error b s s' Hb HR Hsm Hstep) as [d ->]. apply fle_add_nonneg, Hop_psd.
   Qed.
+
+  (* ================================================================ part 4: the direction span is the Krylov space *)
+  (* vectors of F^n; the span of a list of vectors as an inductive predicate *)
+  Definition zerov : vec := repeat 0 n.
+  Definition wfl (ps : list vec) : Prop := Forall (fun p : vec => length p = n) ps.
+
+  Inductive span (ps : list vec) : vec -> Prop :=
+  | span_zero : span ps zerov
+  | span_add c p v : In p ps -> span ps v -> span ps (c *v p +v v).
+
+  Lemma nth_zerov i : nth i zerov 0 = 0.
+  Proof. apply nth_repeat. Qed.
+  Lemma length_zerov : length zerov = n.
+  Proof. apply repeat_length. Qed.
+
+  Lemma span_length ps v : wfl ps -> span ps v -> length v = n.
+  Proof.
+    intros Hw. induction 1 as [|c p v Hin _ IH]; [apply length_zerov|].
+    unfold wfl in Hw. rewrite Forall_forall in Hw. rewrite length_vadd, length_vscale, (Hw p Hin), IH. lia.
+  Qed.
+
+  Lemma span_mono ps qs v : incl ps qs -> span ps v -> span qs v.
+  Proof. intros Hi. induction 1; [constructor|]. constructor; [apply Hi; assumption|assumption]. Qed.
+
+  Lemma span_plus ps u v : wfl ps -> span ps u -> span ps v -> span ps (u +v v).
+  Proof.
+    intros Hw Hu Hv. induction Hu as [|c p u Hin _ IH].
+    - replace (zerov +v v) with v; [exact Hv|]. pose proof (span_length _ _ Hw Hv) as Hl. apply vec_ext.
+      + rewrite length_vadd, length_zerov, Hl. lia.
+      + intros i. rewrite nth_vadd, nth_zerov. ring.
+    - rewrite vadd_assoc. constructor; assumption.
+  Qed.
+
+  Lemma span_scale ps a v : wfl ps -> span ps v -> span ps (a *v v).
+  Proof.
+    intros Hw. induction 1 as [|c p u Hin _ IH].
+    - replace (a *v zerov) with zerov; [constructor|]. apply vec_ext.
+      + now rewrite length_vscale.
+      + intros i. rewrite nth_vscale, nth_zerov. ring.
+    - replace (a *v (c *v p +v u)) with ((a * c) *v p +v a *v u); [constructor; assumption|].
+      apply vec_ext.
+      + repeat (rewrite ?length_vadd, ?length_vscale). lia.
+      + intros i. repeat (rewrite ?nth_vadd, ?nth_vscale). ring.
+  Qed.
+
+  Lemma span_sub ps u v : wfl ps -> span ps u -> span ps v -> span ps (u -v v).
+  Proof. intros Hw Hu Hv. rewrite vsub_as_add. apply span_plus; [assumption|assumption|]. apply span_scale; assumption. Qed.
+
+  Lemma span_in ps p : length p = n -> In p ps -> span ps p.
+  Proof.
+    intros Hl Hin. replace p with (1 *v p +v zerov); [constructor; [assumption|constructor]|]. apply vec_ext.
+    - rewrite length_vadd, length_vscale, length_zerov, Hl. lia.
+    - intros i. rewrite nth_vadd, nth_vscale, nth_zerov. ring.
+  Qed.
+
+  Lemma span_trans A B v : wfl B -> (forall p, In p A -> span B p) -> span A v -> span B v.
+  Proof.
+    intros Hw HA. induction 1 as [|c p u Hin _ IH]; [constructor|].
+    apply span_plus; [assumption| |assumption]. apply span_scale; [assumption|]. apply HA. assumption.
+  Qed.
+
+  Lemma dot_zerov_r w : << w, zerov >> = 0.
+  Proof.
+    unfold zerov. generalize n. induction w as [|a w IH]; intros k; [reflexivity|].
+    destruct k; cbn; [reflexivity|]. rewrite IH. ring.
+  Qed.
+
+  Lemma span_orth ps w v : Forall (fun p : vec => << w, p >> = 0) ps -> span ps v -> << w, v >> = 0.
+  Proof.
+    intros Ho. induction 1 as [|c p u Hin _ IH]; [apply dot_zerov_r|].
+    rewrite Forall_forall in Ho. rewrite dot_vadd_r, dot_vscale_r, (Ho p Hin), IH. ring.
+  Qed.
+
+  Lemma Hop_zerov : Hop zerov = zerov.
+  Proof.
+    assert (E : zerov = 0 *v zerov).
+    { apply vec_ext; [now rewrite length_vscale|]. intros i. rewrite nth_vscale, nth_zerov. ring. }
+    rewrite E at 1. rewrite Hop_scale. apply vec_ext.
+    - rewrite length_vscale, Hop_len, length_zerov. reflexivity.
+    - intros i. rewrite nth_vscale, nth_zerov. ring.
+  Qed.
+
+  Lemma span_Hop A B v : wfl B -> (forall p, In p A -> span B (Hop p)) -> span A v -> span B (Hop v).
+  Proof.
+    intros Hw HA. induction 1 as [|c p u Hin _ IH]; [rewrite Hop_zerov; constructor|].
+    rewrite Hop_add, Hop_scale. apply span_plus; [assumption| |assumption]. apply span_scale; [assumption|]. apply HA. assumption.
+  Qed.
+
+  (* Krylov list [r0; H r0; ..; H^(k-1) r0] (as a set: r0 and the images of the previous list) *)
+  Variable r0v : vec.
+  Hypothesis r0v_len : length r0v = n.
+  Fixpoint kry (k : nat) : list vec := match k with O => [] | S k' => r0v :: map Hop (kry k') end.
+
+  Lemma kry_wfl k : wfl (kry k).
+  Proof.
+    induction k as [|k IH]; [constructor|]. cbn [kry]. constructor; [exact r0v_len|].
+    apply Forall_forall. intros w Hw. apply in_map_iff in Hw. destruct Hw as (u & <- & _). apply Hop_len.
+  Qed.
+
+  Lemma kry_incl k : incl (kry k) (kry (S k)).
+  Proof.
+    induction k as [|k IH]; [intros x []|]. change (kry (S (S k))) with (r0v :: map Hop (kry (S k))).
+    change (kry (S k)) with (r0v :: map Hop (kry k)) at 1.
+    apply incl_cons; [left; reflexivity|]. apply incl_tl. apply incl_map. exact IH.
+  Qed.
+
+  Lemma span_Hop_kry k v : span (kry k) v -> span (kry (S k)) (Hop v).
+  Proof.
+    apply span_Hop; [apply kry_wfl|]. intros p Hp. apply span_in; [apply Hop_len|].
+    cbn [kry]. right. apply in_map. exact Hp.
+  Qed.
+
+  Lemma chain_span (S : list vec) : wfl S -> forall (L : list entry) rc, chain rc L -> length rc = n ->
+    Forall (fun e : entry => length (snd e) = n) L -> span S rc -> Forall (fun e : entry => span S (snd e)) L ->
+    Forall (fun e : entry => span S (Hop (fst e))) L.
+  Proof.
+    intros HS. induction L as [|[p r] L IH]; intros rc Hc Hlrc Hl Hrc Hr; [constructor|].
+    destruct Hc as [(a & Ha & Erc) [_ Hc]].
+    apply Forall_cons_iff in Hl. destruct Hl as [Hl1 Hl2]. apply Forall_cons_iff in Hr. destruct Hr as [Hr1 Hr2].
+    cbn [fst snd] in *. constructor; [|eapply IH; eassumption].
+    cbn [fst]. replace (Hop p) with ((1 / a) *v (r -v rc)).
+    - apply span_scale; [assumption|]. apply span_sub; assumption.
+    - apply vec_ext.
+      + rewrite length_vscale, length_vsub, Hop_len, Hl1, Hlrc. lia.
+      + intros i. rewrite nth_vscale, nth_vsub, Erc, nth_vsub, nth_vscale. field. exact Ha.
+  Qed.
+
+  Definition Inv2 (past : list entry) (st : state F) : Prop :=
+    length (sr st) = n /\ length (sp st) = n /\
+    Forall (fun e : entry => length (fst e) = n /\ length (snd e) = n) past /\
+    Forall (span (kry (length past))) (map fst past) /\
+    span (kry (S (length past))) (sr st) /\
+    Forall (span (map fst past)) (kry (length past)) /\
+    Forall (span (map fst past)) (map snd past) /\
+    (exists dk, span (map fst past) dk /\ sx st = x0v +v dk) /\
+    (past = [] -> sr st = r0v).
+
+  Lemma step_Inv2 past st st' : Inv past st -> Inv2 past st -> step st = Next st' ->
+    Inv2 ((sp st', sr st) :: past) st'.
+  Proof.
+    intros HI (Hlr & Hlp & Hwf & S1 & S2 & S3 & S5 & (dk & Hdk & Hx) & Hnil) Hs.
+    destruct HI as (Hch & _ & _ & _ & _ & Hhead).
+    apply step_next in Hs. cbn zeta in Hs. destruct Hs as [Hrr (p & alpha & Hp & Hd & Halpha & ->)].
+    cbn [sp sr sx sprev].
+    assert (HwD : wfl (map fst past)).
+    { apply Forall_map_iff. eapply Forall_impl; [|exact Hwf]. intros e [H1 _]. exact H1. }
+    assert (Hlen_p : length p = n).
+    { destruct (sprev st); [destruct Hp as [_ ->]; rewrite length_vadd, length_vscale; lia | rewrite Hp; exact Hlp]. }
+    assert (HwD' : wfl (p :: map fst past)) by (constructor; assumption).
+    (* the new direction lies in the Krylov space of the next order *)
+    assert (Hpk : span (kry (S (length past))) p).
+    { destruct past as [|[p1 r1] rest].
+      - destruct Hhead as [Hprev Hsp]. rewrite Hprev in Hp. rewrite Hp, Hsp. exact S2.
+      - destruct Hhead as (Hsp & Hprev & _). rewrite Hprev in Hp. destruct Hp as [_ ->].
+        apply span_plus; [apply kry_wfl|exact S2|]. apply span_scale; [apply kry_wfl|]. rewrite Hsp.
+        eapply span_mono; [apply kry_incl|]. apply Forall_cons_iff in S1. exact (proj1 S1). }
+    (* the current residual lies in the span of the directions including the new one *)
+    assert (HrD : span (p :: map fst past) (sr st)).
+    { destruct past as [|[p1 r1] rest].
+      - destruct Hhead as [Hprev Hsp]. rewrite Hprev in Hp. rewrite Hp, Hsp. apply span_in; [exact Hlr|left; reflexivity].
+      - destruct Hhead as (Hsp & Hprev & _). rewrite Hprev in Hp. destruct Hp as [_ Ep].
+        replace (sr st) with (p -v (<< sr st, sr st >> / << r1, r1 >>) *v p1).
+        + apply span_sub; [exact HwD'| |].
+          * apply span_in; [exact Hlen_p|left; reflexivity].
+          * apply span_scale; [exact HwD'|]. apply span_in; [|right; left; reflexivity].
+            apply Forall_cons_iff in Hwf. exact (proj1 (proj1 Hwf)).
+        + rewrite Ep, Hsp. apply vec_ext.
+          * apply Forall_cons_iff in Hwf. destruct Hwf as [[Hl1 _] _]. cbn [fst] in Hl1.
+            rewrite length_vsub, length_vadd, !length_vscale, Hlr, Hl1. lia.
+          * intros i. rewrite nth_vsub, nth_vadd, !nth_vscale. ring. }
+    (* H maps the old directions into the span of the new list of directions *)
+    assert (HHD : forall q, In q (map fst past) -> span (p :: map fst past) (Hop q)).
+    { assert (HF : Forall (fun e : entry => span (p :: map fst past) (Hop (fst e))) past).
+      { apply (chain_span _ HwD' past (sr st) Hch Hlr).
+        - eapply Forall_impl; [|exact Hwf]. intros e [_ H2]. exact H2.
+        - exact HrD.
+        - apply Forall_map_iff in S5. eapply Forall_impl; [|exact S5]. intros e He.
+          eapply span_mono; [|exact He]. apply incl_tl, incl_refl. }
+      intros q Hq. apply in_map_iff in Hq. destruct Hq as (e & <- & He). rewrite Forall_forall in HF. exact (HF e He). }
+    unfold Inv2. cbn [sp sr sx sprev length map fst snd].
+    split; [rewrite length_vsub, length_vscale, Hop_len, Hlr; lia|].
+    split; [exact Hlen_p|].
+    split; [constructor; [cbn [fst snd]; split; assumption|exact Hwf]|].
+    split.
+    { constructor; [exact Hpk|]. eapply Forall_impl; [|exact S1]. intros q Hq. eapply span_mono; [apply kry_incl|exact Hq]. }
+    split.
+    { apply span_sub; [apply kry_wfl| |].
+      - eapply span_mono; [apply kry_incl|exact S2].
+      - apply span_scale; [apply kry_wfl|]. apply span_Hop_kry. exact Hpk. }
+    split.
+    { change (kry (S (length past))) with (r0v :: map Hop (kry (length past))). constructor.
+      - destruct past as [|e rest].
+        + rewrite <- (Hnil eq_refl). exact HrD.
+        + cbn [length kry] in S3. apply Forall_cons_iff in S3. eapply span_mono; [|exact (proj1 S3)]. apply incl_tl, incl_refl.
+      - apply Forall_map_iff. eapply Forall_impl; [|exact S3]. intros w Hw.
+        exact (span_Hop _ _ _ HwD' HHD Hw). }
+    split.
+    { constructor; [exact HrD|]. eapply Forall_impl; [|exact S5]. intros w Hw. eapply span_mono; [|exact Hw]. apply incl_tl, incl_refl. }
+    split.
+    { exists (alpha *v p +v dk). split.
+      - constructor; [left; reflexivity|]. eapply span_mono; [|exact Hdk]. apply incl_tl, incl_refl.
+      - rewrite Hx. apply vec_ext.
+        + repeat (rewrite ?length_vadd, ?length_vscale). lia.
+        + intros i. repeat (rewrite ?nth_vadd, ?nth_vscale). ring. }
+    discriminate.
+  Qed.
+
+  Lemma iter_Inv2 fuel : forall st past res h, Inv past st -> Inv2 past st -> iter fuel st = (res, h) ->
+    forall h1 s h2, h = h1 ++ s :: h2 -> Inv2 (past_of st (h1 ++ [s]) past) s.
+  Proof.
+    induction fuel as [|fuel IH]; intros st past res h HI HI2 Hi h1 s h2 Hh; cbn [cg_iter] in Hi.
+    - injection Hi as _ <-. destruct h1; discriminate.
+    - destruct (step st) as [| |st'] eqn:Es; try (injection Hi as _ <-; destruct h1; discriminate).
+      destruct (iter fuel st') as [res' h'] eqn:Ei. injection Hi as _ <-.
+      pose proof (step_Inv _ _ _ HI Es) as HI'. pose proof (step_Inv2 _ _ _ HI HI2 Es) as HI2'.
+      destruct h1 as [|s1 h1]; cbn [app] in Hh; injection Hh as <- Hh.
+      + cbn [app past_of]. exact HI2'.
+      + cbn [app past_of]. eapply IH; eassumption.
+  Qed.
+
+  Lemma past_of_length h : forall prev acc, length (past_of prev h acc) = (length h + length acc)%nat.
+  Proof. induction h as [|s h IH]; intros prev acc; cbn [past_of length]; [reflexivity|]. rewrite IH. cbn. lia. Qed.
+
+  Section RunK.
+    Variables (b : vec) (x0 : option vec) (m : nat) (res : option vec) (h : list (state F)).
+    Hypothesis Hx0 : x0v = sx (init b x0).
+    Hypothesis Hx0len : length x0v = n.
+    Hypothesis Hblen : length b = n.
+    Hypothesis Hr0 : r0v = sr (init b x0).
+    Hypothesis Hrun : run b x0 m = (res, h).
+    Variables (h1 : list (state F)) (s : state F) (h2 : list (state F)).
+    Hypothesis Hsplit : h = h1 ++ s :: h2.
+
+    Lemma Inv2_init : Inv2 [] (init b x0).
+    Proof.
+      unfold Inv2. cbn [length map kry]. rewrite <- Hr0.
+      assert (Hl : length (sp (init b x0)) = n) by (unfold cg_init; cbn [sp]; fold (sr (init b x0)); rewrite <- Hr0; exact r0v_len).
+      repeat split; try constructor; try exact r0v_len; try exact Hl.
+      - apply span_in; [exact r0v_len|left; reflexivity].
+      - exists zerov. split; [constructor|]. rewrite <- Hx0. apply vec_ext.
+        + rewrite length_vadd, length_zerov, Hx0len. lia.
+        + intros i. rewrite nth_vadd, nth_zerov. ring.
+    Qed.
+
+    Lemma run_Inv2 : Inv2 (past_of (init b x0) (h1 ++ [s]) []) s.
+    Proof.
+      unfold cg_run in Hrun. destruct (feqb _ _).
+      - injection Hrun as _ E. rewrite <- E in Hsplit. destruct h1; discriminate.
+      - eapply iter_Inv2; [apply Inv_init; exact Hx0 | apply Inv2_init | exact Hrun | exact Hsplit].
+    Qed.
+
+    Let dirs := map (@sp F) (h1 ++ [s]).
+    Let k := length (h1 ++ [s]).
+
+    Lemma past_dirs : map fst (past_of (init b x0) (h1 ++ [s]) []) = rev dirs.
+    Proof. rewrite past_of_dirs. cbn [map]. apply app_nil_r. Qed.
+    Lemma past_len : length (past_of (init b x0) (h1 ++ [s]) []) = k.
+    Proof. rewrite past_of_length. cbn. unfold k. lia. Qed.
+
+    Lemma dirs_wfl : wfl dirs.
+    Proof.
+      pose proof run_Inv2 as (_ & _ & Hwf & _).
+      assert (Hw : wfl (rev dirs)).
+      { rewrite <- past_dirs. apply Forall_map_iff. eapply Forall_impl; [|exact Hwf]. intros e [H1 _]. exact H1. }
+      apply Forall_rev in Hw. rewrite rev_involutive in Hw. exact Hw.
+    Qed.
+
+    (* both inclusions: span{p_0..p_(k-1)} = span{r0, H r0, .., H^(k-1) r0} *)
+    Theorem cg_krylov v : span dirs v <-> span (kry k) v.
+    Proof.
+      pose proof run_Inv2 as (_ & _ & _ & S1 & _ & S3 & _). rewrite past_dirs, past_len in S1, S3. split.
+      - apply span_trans; [apply kry_wfl|]. intros p Hp. rewrite Forall_forall in S1. apply S1. apply in_rev in Hp. exact Hp.
+      - apply span_trans; [apply dirs_wfl|]. intros p Hp. rewrite Forall_forall in S3.
+        eapply span_mono; [|exact (S3 p Hp)]. intros q Hq. apply in_rev. exact Hq.
+    Qed.
+
+    (* the iterate lies in x0 + K_k *)
+    Theorem cg_iterate_in_krylov : exists d, span (kry k) d /\ sx s = x0v +v d.
+    Proof.
+      pose proof run_Inv2 as (_ & _ & _ & _ & _ & _ & _ & (dk & Hdk & Hx) & _). rewrite past_dirs in Hdk.
+      exists dk. split; [|exact Hx]. apply cg_krylov. eapply span_mono; [|exact Hdk]. intros q Hq. apply in_rev. exact Hq.
+    Qed.
+
+    (* Pythagoras over the whole affine Krylov space: for every y = x0 + d, d in K_k,
+       errH(y) = errH(x_k) + |y - x_k|_H^2 *)
+    Theorem cg_krylov_pythagoras d : Hop xs = b -> span (kry k) d ->
+      exists e, errH (x0v +v d) = errH (sx s) + << e, Hop e >>.
+    Proof.
+      intros Hb Hd. destruct cg_iterate_in_krylov as (dk & Hdk & Hx).
+      exists (d -v dk).
+      assert (He : span dirs (d -v dk)) by (apply cg_krylov; apply span_sub; [apply kry_wfl|assumption|assumption]).
+      assert (E : x0v +v d = sx s +v (d -v dk)).
+      { rewrite Hx. pose proof (span_length _ _ (kry_wfl k) Hd) as L1. pose proof (span_length _ _ (kry_wfl k) Hdk) as L2.
+        apply vec_ext.
+        - repeat (rewrite ?length_vadd, ?length_vsub). lia.
+        - intros i. repeat (rewrite ?nth_vadd, ?nth_vsub). ring. }
+      rewrite E. apply (pythagoras b); [exact Hb| |].
+      - pose proof (run_residual b x0 m res h Hrun) as HR. rewrite Forall_forall in HR. apply HR. rewrite Hsplit.
+        apply in_or_app. right. left. reflexivity.
+      - apply (span_orth dirs); [|exact He].
+        exact (cg_residual_orth_dirs b x0 m res h Hx0 Hrun h1 s h2 Hsplit).
+    Qed.
+  End RunK.
+
+  (* x_k minimises the H-norm error over x0 + span{r0, H r0, .., H^(k-1) r0} *)
+  Theorem cg_optimal_krylov b x0 m res h h1 s h2 : x0v = sx (init b x0) -> length x0v = n -> length b = n ->
+    r0v = sr (init b x0) -> run b x0 m = (res, h) -> h = h1 ++ s :: h2 -> Hop xs = b ->
+    forall d, span (kry (length (h1 ++ [s]))) d -> fle (errH (sx s)) (errH (x0v +v d)).
+  Proof.
+    intros Hx Hxl Hbl Hr Hrun Hs Hb d Hd.
+    destruct (cg_krylov_pythagoras b x0 m res h Hx Hxl Hr Hrun h1 s h2 Hs d Hb Hd) as [e ->].
+    apply fle_add_nonneg, Hop_psd.
+  Qed.
 End CGProofs.
